@@ -412,8 +412,8 @@ theorem vdcma_rates_of_correction (F : Fns Rat) (n : Nat) (hn : 1 ≤ n) (corr m
   have h2 : (0 : Rat) < (((n + 2) * (n + 2) : Nat) : Rat) + muEff := by positivity
   positivity
 
-/-- the correction factor of the C++ is in `(0, n]` from dimension 6 on -/
-theorem vdcma_correction_ok (F : Fns Rat) (n : Nat) (hn : 6 ≤ n) :
+/-- the correction factor of the C++ is in `(0, n]` from dimension 6 on.  `_partial`: the hypothesis `6 ≤ n` excludes dimensions the real code accepts — there the factor is not positive (finding F14, witness `vdcma_head_formula_not_positive`); with the proposed patch the same proof goes through for `1 ≤ n` -/
+theorem vdcma_correction_ok_partial (F : Fns Rat) (n : Nat) (hn : 6 ≤ n) :
     0 < vdcma_correction F n ∧ vdcma_correction F n ≤ n := by
   have hnn : (6 : Rat) ≤ (n : Rat) := by exact_mod_cast hn
   simp only [vdcma_correction, ofRat_rat, ofNat_rat, div_one, smax_rat, lt_max_iff, max_le_iff]
@@ -1065,10 +1065,10 @@ example : cholUpdate idFns 1 1 [1] [[1]] = some [[2]] := by decide +kernel
 def unitFns : Fns Rat := { log := id, sqrt := id, exp := fun _ => 1, pow := fun _ _ => 1 }
 example : 1 < (cmsa_consts unitFns 3 2).cC := (cmsa_consts_admissible unitFns (fun _ h => h) 3 2 (by norm_num) (by norm_num)).2.1
 example : (ecma_consts unitFns 2).cCov < 1 := (ecma_consts_admissible unitFns (fun _ _ => by simp [unitFns]) 2 (by norm_num)).2.2.2.2.1.2
-example : 0 < vdcma_correction unitFns 6 := (vdcma_correction_ok unitFns 6 (le_refl _)).1
+example : 0 < vdcma_correction unitFns 6 := (vdcma_correction_ok_partial unitFns 6 (le_refl _)).1
 example : 0 < (vdcma_c1 unitFns 7 (vdcma_correction unitFns 7) 2) :=
-  (vdcma_rates_of_correction unitFns 7 (by norm_num) _ 2 (vdcma_correction_ok unitFns 7 (by norm_num)).1
-    (vdcma_correction_ok unitFns 7 (by norm_num)).2 (by norm_num)).1.1
+  (vdcma_rates_of_correction unitFns 7 (by norm_num) _ 2 (vdcma_correction_ok_partial unitFns 7 (by norm_num)).1
+    (vdcma_correction_ok_partial unitFns 7 (by norm_num)).2 (by norm_num)).1.1
 example : (((3 : Nat) : Rat) - 5) / 6 * 2 / ((((3 : Nat) : Rat) + 13/10) * (((3 : Nat) : Rat) + 13/10) + 2) ≤ 0 :=
   vdcma_head_formula_not_positive 3 (by norm_num) 2 (by norm_num)
 example : 0 < (1 + ES.activeRate (1/5 : Rat) 9) - ES.activeRate (1/5 : Rat) 9 * 9 :=
